@@ -18,7 +18,7 @@ RULE = ('2-5 simulated threads run seeded scripts over a small pool of overlappi
 ASSUMPTIONS = []
 PROBES = ['overlapping_registrations']
 PLAN = {
-  'quick': {'strata': {'threads': 6000, 'sequential': 1000}, 'wall_s': 300, 'chunk': 100, 'min_conclusive': 1000},
+  'quick': {'strata': {'threads': 14000, 'sequential': 1000}, 'wall_s': 300, 'chunk': 100, 'min_conclusive': 1000},
   'thorough': {'strata': {'threads': 150000, 'sequential': 20000}, 'wall_s': 900, 'chunk': 250, 'min_conclusive': 1000},
 }
 INNER = ['ENTRY_SIGNAL', 'EXIT_SIGNAL', 'INIT_SIGNAL', 'REFLECTION_SIGNAL', 'EMPTY_SIGNAL', 'SEARCH_FOR_SUPER_SIGNAL',
